@@ -52,7 +52,7 @@ fn main() {
     let cap_s = std::env::var("VERIF_CAP_S")
         .ok()
         .and_then(|s| s.parse::<f64>().ok())
-        .unwrap_or(if tier == Tier::Quick { 50.0 } else { 3000.0 });
+        .unwrap_or(if tier == Tier::Quick { 50.0 } else { 5400.0 });
     // silence panic messages of caught subject panics; machinery panics still exit 2 via the wrapper below
     std::panic::set_hook(Box::new(|_| {}));
     let ctx = Ctx { prop: prop.clone(), tier, seed, start: Instant::now(), replay, cap_s };
